@@ -267,6 +267,9 @@ fn exec_with(v: &Value, f: impl Fn(&RunCtx, &mut Outcome)) -> Outcome {
             if listener {
                 out.fault("log_tail_listener_attached_to_the_run", 1);
             }
+            if ctx.trace.env_actions_done > 0 {
+                out.fault("command_file_made_executable_while_the_run_was_in_progress", ctx.trace.env_actions_done as u64);
+            }
             f(&ctx, &mut out);
             let groups: Vec<usize> = ctx.trace.result_json().map(|d| result_groups(&d).iter().map(|r| r.1.len()).collect()).unwrap_or_default();
             out.signature = format!("{:?}|{:?}|{:?}|{}", ctx.sc.spec.targets.iter().map(|t| (&t.path, &t.uses)).collect::<Vec<_>>(), groups, ctx.sc.script.strategy, ctx.trace.log.len());
@@ -528,6 +531,20 @@ fn gen_c05(seed: u64, idx: usize, _tier: Tier) -> RunScenario {
             if !cands.is_empty() {
                 let i = cands[rng.below(cands.len())];
                 sc.spec.cmd_files[i].broken = true;
+            }
+        }
+        2 | 3 | 4 => {
+            // a command file of the second command is a plain, non-executable file when the run starts and
+            // becomes executable while the first command is still being processed (an earlier step of the
+            // run, or somebody else, fixed its mode): at its turn it is defined and executable, so it runs
+            let cmds = expanded_commands(&sc.spec, &sc.script.opts);
+            if cmds.len() >= 2 && !matches!(sc.mode, Mode::Changed { .. }) {
+                let c2 = cmds[1].clone();
+                let cands: Vec<usize> = (0..sc.spec.cmd_files.len()).filter(|&i| sc.spec.cmd_files[i].exec && !sc.spec.cmd_files[i].broken && sc.spec.cmd_files[i].command == c2).collect();
+                if !cands.is_empty() && cmds.iter().filter(|c| **c == c2).count() == 1 {
+                    let i = cands[rng.below(cands.len())];
+                    sc.script.env_actions.push(crate::rundrv::EnvAction { point: "run.group.done".into(), nth: 1, act: crate::rundrv::EnvAct::MakeHelper { rel: sc.spec.cmd_files[i].rel.clone() } });
+                }
             }
         }
         _ => {}
